@@ -28,7 +28,8 @@ class DnaSymClone(Contract):
 
   def inputs(self, b):
     self._spec = SAny('spec')
-    s = SObj(geno.DNA, {'_spec': self._spec,
+    self._sealed = b.bool('sealed')
+    s = SObj(geno.DNA, {'_spec': self._spec, '_sealed': self._sealed, 'is_sealed': self._sealed,
                         '_userdata': {'k_cloneable': b.any('u1'), 'k_private': b.any('u2')},
                         '_cloneable_userdata_keys': {'k_cloneable'},
                         '_cloneable_metadata_keys': {'m_cloneable'},
@@ -51,6 +52,13 @@ class DnaSymClone(Contract):
       return args[0]
     policy.contracts['pyglove.core.symbolic.base:Symbolic.rebind'] = rebind
 
+    def seal(interp, frame, args, kwargs):
+      a = [interp.resolve(x) for x in args]
+      interp.path.event('seal', 'seal', (a[0], a[1] if len(a) > 1 else kwargs.get('sealed', True)))
+      return a[0]
+    for q in ('pyglove.core.symbolic.base:Symbolic.seal', 'pyglove.core.symbolic.object:Object.seal'):
+      policy.contracts[q] = seal
+
   def ensures_clone_is_bound_to_the_same_spec(self, self_, result):
     return result is self._other and result._spec is self_._spec
 
@@ -72,6 +80,45 @@ class DnaSymClone(Contract):
   def trace_original_untouched(self, events, outcome, interp, env):
     s = interp.resolve(env['self'])
     return not [e for e in events if e.kind == 'write' and e.data[0] is s]
+
+  def trace_copy_of_a_sealed_dna_is_sealed_again_after_its_metadata_is_set(self, events, outcome, interp, env):
+    """The metadata of the copy is re-attached under as_sealed(False), which
+    leaves the new metadata node unsealed: a sealed original must end with
+    other.seal() after that rebind (deep seal: C08), an unsealed one with no
+    seal call at all."""
+    if outcome[0] != 'return':
+      return False
+    seals = [i for i, e in enumerate(events) if e.kind == 'seal']
+    rebinds = [i for i, e in enumerate(events) if e.kind == 'rebind']
+    ok = (len(seals) == 1 and events[seals[0]].data[0] is self._other and events[seals[0]].data[1] is True
+          and all(i < seals[0] for i in rebinds))
+    z = interp.to_z3(self._sealed)
+    return z3.And(z3.Implies(z, z3.BoolVal(ok)), z3.Implies(z3.Not(z), z3.BoolVal(not seals)))
+
+  def small_models(self):
+    from pyvc.contracts import Model
+    yield Model({}, {})
+
+  def replay(self, obligation, m):
+    bad = []
+    spec_ = pg.dna_spec(pg.Dict(x=pg.oneof([1, 2]), y=pg.oneof([3, 4])))
+    for how, f in (('clone()', lambda d: d.clone()), ('clone(deep=True)', lambda d: d.clone(deep=True)),
+                   ('copy.deepcopy', lambda d: __import__('copy').deepcopy(d))):
+      d = pg.DNA([0, 1], spec=spec_)
+      d.set_metadata('k', 1, cloneable=True)
+      d.seal()
+      c = f(d)
+      loose = [str(n.sym_path) for n in [c] + [c.sym_getattr('metadata')] if isinstance(n, pg.Symbolic) and not n.is_sealed]
+      try:
+        c.set_metadata('z', 9)
+        loose.append('set_metadata accepted')
+      except pg.WritePermissionError:
+        pass
+      except Exception:  # pylint: disable=broad-except
+        pass
+      if loose:
+        bad.append(f'{how} of a sealed DNA: not sealed: {loose}')
+    return dict(outcome='reproduced' if bad else 'not-reproduced', detail='; '.join(bad) or 'copy of a sealed DNA is sealed throughout')
 
 
 # ---------------------------------------------------------------------------
